@@ -53,6 +53,48 @@ def step (_ : Unit) (op impl : String) : Unit × DrvOut :=
         | none => "-"
       ((), { model, spec := specLine true v m d impl })
     | _, _, _ => ((), { model := "bad-op" })
+  | ["wd", d] =>
+    -- recorder.writeDuration: impl "<mvhd.DurationV0> ts=<mvhd.Timescale>"
+    match d.toInt? with
+    | some d =>
+      let model := match Gen.inline1.find? (·.1 == "recorder_writeDuration_mvhdDuration") with
+        | some c => (match c.2 d with | some r => s!"{r} ts=1000" | none => "panic")
+        | none => "-"
+      let spec :=
+        match words impl with
+        | [a, b] =>
+          match a.toInt?, (if b.startsWith "ts=" then (b.drop 3).toString.toInt? else none) with
+          | some dv, some ts =>
+            if ts ≤ 0 then "FAIL movie time scale is not positive"
+            else
+              let e := exact d ts nsPerSec
+              -- claimed only when the exact value is representable in the 32-bit field
+              if 0 ≤ e ∧ e < 2 ^ 32 then
+                (if dv = e then "ok"
+                 else s!"FAIL segment duration in the movie time scale is {dv}, exact truncated quotient is {e}")
+              else "ok"
+          | _, _ => "FAIL unparsable implementation answer"
+        | _ => "FAIL unparsable implementation answer"
+      ((), { model, spec })
+    | none => ((), { model := "bad-op" })
+  | ["rh", dur, ts] =>
+    -- playback.segmentFMP4ReadHeader: impl "<duration ns>" | "err" (time scale 0 is rejected by the code)
+    match dur.toInt?, ts.toInt? with
+    | some dur, some ts =>
+      let model :=
+        if ts = 0 then "err" else
+        match Gen.inline2.find? (·.1 == "playback_readHeader_duration") with
+        | some c => (match c.2 dur ts with | some r => s!"{r}" | none => "panic")
+        | none => "-"
+      let spec :=
+        if ts = 0 then (if impl == "err" then "ok" else "FAIL time scale 0 accepted")
+        else match impl.toInt? with
+          | some r =>
+            let e := exact dur nsPerSec ts
+            if r = e then "ok" else s!"FAIL duration read back is {r} ns, exact truncated quotient is {e}"
+          | none => "FAIL no duration for a valid header"
+      ((), { model, spec })
+    | _, _ => ((), { model := "bad-op" })
   | _ => ((), { model := "bad-op" })
 
 def main (args : List String) : IO UInt32 := runDriver args () step
